@@ -107,11 +107,14 @@ def _seq(items):
     return t
 
 
-def _conv_seq(sub, flags, top, drop_bol):
+def _conv_seq(sub, flags, top, drop_bol, drop_eos=False):
     out = []
+    n = len(sub)
     for idx, (op, av) in enumerate(sub):
         if op is C.AT and av is C.AT_BEGINNING and top and idx == 0 and drop_bol:
             continue  # pattern is only ever applied with match() at position 0
+        if op is C.AT and av is C.AT_END_STRING and top and idx == n - 1 and drop_eos:
+            continue  # \Z at the very end: the model applies the pattern as a full match (`matches`)
         out.append(_conv(op, av, flags))
     return _seq(out)
 
@@ -144,7 +147,7 @@ def _conv(op, av, flags):
     raise Untranslatable('opcode %r' % (op,))
 
 
-def translate(pattern, flags=0, drop_bol=False):
+def translate(pattern, flags=0, drop_bol=False, drop_eos=False):
     """pattern string -> intermediate tree"""
     if flags & (re.X | re.L):
         raise Untranslatable('flags')
@@ -152,7 +155,7 @@ def translate(pattern, flags=0, drop_bol=False):
     flags = p.state.flags | flags
     if p.state.groupdict and False:
         pass
-    return _conv_seq(p, flags, True, drop_bol)
+    return _conv_seq(p, flags, True, drop_bol, drop_eos)
 
 
 def nullable(t):
